@@ -198,12 +198,13 @@ def extract_transforms():
     between = body[mrange.end():ch.start()].strip()
     reject = {"order": [], "not_given": None, "message": None}
     if between:
-        ml = re.fullmatch(r"for \(name, r\) in \[(.*?)\] \{ if range_is_empty\(r\) && \*r != \((None|Some\(-?\d+\)), (None|Some\(-?\d+\))\) \{ "
-                          r"return Err\(Error::new_simple\(format!\( \"(.*?)\" \)\)\); \} \}", between)
+        ml = re.fullmatch(r"for \(name, r(?:, span)?\) in \[(.*?)\] \{ if range_is_empty\(r\) && \*r != \((None|Some\(-?\d+\)), (None|Some\(-?\d+\))\) \{ "
+                          r"return Err\(Error::new_simple\(format!\( \"(.*?)\" \)\)(?: \.with_span\(span\))?\); \} \}", between)
         if not ml:
             raise ExtractError("window: text between the arguments and the decision chain not understood: %r" % between[:160])
-        pairs = re.findall(r'\("(\w+)", &(\w+)\)', ml.group(1))
-        if re.sub(r"\s+", "", ", ".join('("%s", &%s)' % p for p in pairs)) != re.sub(r"\s+", "", ml.group(1)) or not pairs:
+        inner = re.sub(r", (rows|range)_span\)", ")", ml.group(1))          # 819c36b: the error carries the span of the argument
+        pairs = re.findall(r'\("(\w+)", &(\w+)\)', inner)
+        if re.sub(r"\s+", "", ", ".join('("%s", &%s)' % p for p in pairs)) != re.sub(r"\s+", "", inner) or not pairs:
             raise ExtractError("window: list of checked arguments not understood: %r" % ml.group(1))
         for nm, var in pairs:
             if nm != var or nm not in ("rows", "range"):
@@ -593,6 +594,21 @@ def extract_propagation():
         "a windowed sub-expression becomes its own column": r"if expr\.needs_window \{ let span = expr\.span; let cid = self\.declare_as_column\(expr, false\)\?;",
     }
     for what, pat in checks.items():
+        if not re.search(pat, lw):
+            raise ExtractError("lowering.rs: %s -- no longer has the modelled shape" % what)
+    # Model/WinLower.v: every use of the Lowerer's `window` field -- created as None, set after the call's partition and sort
+    # are lowered, taken by Aggregate and Take, None again at the end of the call, read by declare_as_column
+    lwc = re.sub(r"#\[cfg\(prqlc_verif\)\] verif_op\([^;]*;", "", lw)
+    uses = sorted(re.findall(r"self\.window\b(?:\.\w+\(\)(?:\.\w+\(\))?| = [^;]*)?", lwc))
+    want = sorted(["self.window = Some(window)", "self.window.take()", "self.window.take().unwrap_or_default()", "self.window = None", "self.window.clone()"])
+    if uses != want:
+        raise ExtractError("lowering.rs: self.window is used in a way that is not modelled: %r" % uses)
+    for what, pat in (
+            ("the field is None when the Lowerer is created", r"window: None, pipeline: Vec::new\(\),"),
+            ("Aggregate takes the field before it lowers its columns", r"pl::TransformKind::Aggregate \{ assigns, \.\. \} => \{ let window = self\.window\.take\(\); (?:#\[cfg\(prqlc_verif\)\] verif_op\([^;]*; )?let compute = self\.declare_as_columns\(\*assigns, true\)\?;"),
+            ("Take takes the field", r"pl::TransformKind::Take \{ range, \.\. \} => \{ let window = self\.window\.take\(\)\.unwrap_or_default\(\);"),
+            ("the field is None again at the end of the call", r"\} self\.window = None; (?:#\[cfg\(prqlc_verif\)\] verif_op\([^;]*; )?Ok\(\(\)\) \}"),
+            ("sort keys are lowered by declare_as_column", r"fn lower_sorts\(&mut self, by: Vec<ColumnSort<Box<pl::Expr>>>\) -> Result<Vec<ColumnSort<CId>>> \{ by\.into_iter\(\) \.map\(\|ColumnSort \{ column, direction \}\| \{ let column = self\.declare_as_column\(\*column, false\)\?;")):
         if not re.search(pat, lw):
             raise ExtractError("lowering.rs: %s -- no longer has the modelled shape" % what)
     return pol
